@@ -6,7 +6,7 @@
    concrete histories on which the faithful model violates the property text (findings that are still
    open); each is replayed on the implementation by the harness (corpus/C07).  The `_old_refuted` Examples
    are witnesses of the behaviour BEFORE the fix commits, over the `_old` definitions (history only). *)
-Require Import Base DictIO DictIOProofs.
+Require Import Base DictIO DictIOProofs C07Ident C07IdentProofs C07Power C07PowerProofs.
 From Coq Require Import Permutation.
 
 (* save then load: the dictionary read back is the dictionary written (as a map id -> spelling), for
@@ -457,3 +457,193 @@ Example C07_merge_rebuild_example :
   child_stream_old (@rev word) d = child_stream_old id_order (append_word a_is_lower a_lower d [65; 97]%N) /\
   child_hash_eqb (child_words (@rev word) d) (child_words id_order (append_word a_is_lower a_lower d [65; 97]%N)) = false.
 Proof. split; [apply wf_append, wf_append, wf_nil|]. vm_compute. split; [discriminate|split; reflexivity]. Qed.
+
+(* ================================================================================================== *)
+(*  source-code documents: the identifier dictionary in the per-document state (Model/C07Ident.v)       *)
+(* ================================================================================================== *)
+
+(* update_document as written after 6ece0c3 (base_dict / ident_dict / dict per open document; irun): after ANY history of
+   adds, crashed adds, restarts, checks of plain and of source documents and the hidden updates the add commands make
+   (IUpdate), the check of a source document u with identifiers ids is decided by the dictionary files AS THEY ARE NOW
+   followed by the identifier dictionary of the text checked — an add re-merges the identifiers (none is lost) and the
+   added word reaches the comments of the source file.  Premise: the language of a url does not change (well_kinded) *)
+Theorem C07_ident_check : forall (is_lower : N -> bool) (lower : N -> list N) (curated : dict) (iter_order : list word -> list word),
+  (forall l : list word, Permutation (iter_order l) l) ->
+  forall (is_src : url -> bool) (h : list iop) (s : fsys) (u : url) (ids toks : list word),
+  Forall (well_kinded is_src) h -> is_src u = true ->
+  snd (irun is_lower lower curated iter_order (s, []) (h ++ [LintSrc u ids toks])) =
+  snd (iref is_lower lower curated iter_order s h) ++
+  [flags is_lower lower
+     (children is_lower lower curated (run_fs is_lower lower curated iter_order s (ibase h)) u ++
+      [ident_dict is_lower lower ids]) toks].
+Proof. exact ident_check. Qed.
+Check C07_ident_check : forall (is_lower : N -> bool) (lower : N -> list N) (curated : dict) (iter_order : list word -> list word),
+  (forall l : list word, Permutation (iter_order l) l) ->
+  forall (is_src : url -> bool) (h : list iop) (s : fsys) (u : url) (ids toks : list word),
+  Forall (well_kinded is_src) h -> is_src u = true ->
+  snd (irun is_lower lower curated iter_order (s, []) (h ++ [LintSrc u ids toks])) =
+  snd (iref is_lower lower curated iter_order s h) ++
+  [flags is_lower lower
+     (children is_lower lower curated (run_fs is_lower lower curated iter_order s (ibase h)) u ++
+      [ident_dict is_lower lower ids]) toks].
+Print Assumptions C07_ident_check.
+
+(* ... for every check of the history: the server with per-document state answers like the stateless reference iref
+   (plain documents: [curated; user; file] loaded now; source documents: the same + identifiers), same disk *)
+Theorem C07_ident_transparent : forall (is_lower : N -> bool) (lower : N -> list N) (curated : dict) (iter_order : list word -> list word),
+  (forall l : list word, Permutation (iter_order l) l) ->
+  forall (is_src : url -> bool) (h : list iop) (s : fsys) (c : icache),
+  icache_ok is_lower lower curated is_src c ->
+  Forall (well_kinded is_src) h ->
+  snd (irun is_lower lower curated iter_order (s, c) h) = snd (iref is_lower lower curated iter_order s h) /\
+  fst (fst (irun is_lower lower curated iter_order (s, c) h)) = fst (iref is_lower lower curated iter_order s h).
+Proof. exact ident_transparent. Qed.
+Check C07_ident_transparent : forall (is_lower : N -> bool) (lower : N -> list N) (curated : dict) (iter_order : list word -> list word),
+  (forall l : list word, Permutation (iter_order l) l) ->
+  forall (is_src : url -> bool) (h : list iop) (s : fsys) (c : icache),
+  icache_ok is_lower lower curated is_src c ->
+  Forall (well_kinded is_src) h ->
+  snd (irun is_lower lower curated iter_order (s, c) h) = snd (iref is_lower lower curated iter_order s h) /\
+  fst (fst (irun is_lower lower curated iter_order (s, c) h)) = fst (iref is_lower lower curated iter_order s h).
+Print Assumptions C07_ident_transparent.
+
+(* no identifier is lost: with the dictionary the check is made with (C07_ident_check) an identifier of the text is
+   accepted whatever the dictionary files hold.  Premises: a curated entry at its id is of the right dialect (FC07b);
+   no second identifier of the document has the same case-folded id and another spelling (F15 among identifiers) *)
+Theorem C07_ident_kept : forall (is_lower : N -> bool) (lower : N -> list N) (curated : dict) (s : fsys) (u : url) (ids : list word) (i : word),
+  In i ids ->
+  (forall i' : word, In i' ids -> word_id is_lower lower i' = word_id is_lower lower i -> normalized i' = normalized i) ->
+  (forall e : entry, lookup (word_id is_lower lower i) curated = Some e -> snd e = true) ->
+  accepted is_lower lower (children is_lower lower curated s u ++ [ident_dict is_lower lower ids]) i = true.
+Proof. exact ident_kept. Qed.
+Check C07_ident_kept : forall (is_lower : N -> bool) (lower : N -> list N) (curated : dict) (s : fsys) (u : url) (ids : list word) (i : word),
+  In i ids ->
+  (forall i' : word, In i' ids -> word_id is_lower lower i' = word_id is_lower lower i -> normalized i' = normalized i) ->
+  (forall e : entry, lookup (word_id is_lower lower i) curated = Some e -> snd e = true) ->
+  accepted is_lower lower (children is_lower lower curated s u ++ [ident_dict is_lower lower ids]) i = true.
+Print Assumptions C07_ident_kept.
+
+(* accepted from then on in the comments of a source file too: C07_add_sequential for the dictionary a source document
+   is checked with (the history may contain source checks and hidden updates; only its add commands touch the disk) *)
+Theorem C07_ident_add_accepted : forall (is_lower : N -> bool) (lower : N -> list N) (curated : dict) (iter_order : list word -> list word),
+  (forall l : list word, Permutation (iter_order l) l) ->
+  forall (s0 : fsys) (h1 : list iop) (sc : scope) (w : word) (h2 : list iop) (u : url) (p : path) (ids : list word),
+  fs_ok is_lower lower s0 ->
+  Forall op_safe (ibase h1 ++ AddWord sc w :: ibase h2) ->
+  (forall e : entry, lookup (word_id is_lower lower w) curated = Some e -> snd e = true) ->
+  target sc = Some p ->
+  (forall (o : op) (sc' : scope) (w' : word),
+     In o (ibase h2) -> op_add o = Some (sc', w') -> target sc' = Some p ->
+     word_id is_lower lower w' = word_id is_lower lower w -> normalized w' = normalized w) ->
+  p = UserP \/ (exists n : list N, file_dict_name u = Some n /\ p = FileP n) ->
+  accepted is_lower lower
+    (children is_lower lower curated
+       (run_fs is_lower lower curated iter_order s0 (ibase (h1 ++ IBase (AddWord sc w) :: h2))) u ++
+     [ident_dict is_lower lower ids]) w = true.
+Proof. exact ident_add_accepted. Qed.
+Check C07_ident_add_accepted : forall (is_lower : N -> bool) (lower : N -> list N) (curated : dict) (iter_order : list word -> list word),
+  (forall l : list word, Permutation (iter_order l) l) ->
+  forall (s0 : fsys) (h1 : list iop) (sc : scope) (w : word) (h2 : list iop) (u : url) (p : path) (ids : list word),
+  fs_ok is_lower lower s0 ->
+  Forall op_safe (ibase h1 ++ AddWord sc w :: ibase h2) ->
+  (forall e : entry, lookup (word_id is_lower lower w) curated = Some e -> snd e = true) ->
+  target sc = Some p ->
+  (forall (o : op) (sc' : scope) (w' : word),
+     In o (ibase h2) -> op_add o = Some (sc', w') -> target sc' = Some p ->
+     word_id is_lower lower w' = word_id is_lower lower w -> normalized w' = normalized w) ->
+  p = UserP \/ (exists n : list N, file_dict_name u = Some n /\ p = FileP n) ->
+  accepted is_lower lower
+    (children is_lower lower curated
+       (run_fs is_lower lower curated iter_order s0 (ibase (h1 ++ IBase (AddWord sc w) :: h2))) u ++
+     [ident_dict is_lower lower ids]) w = true.
+Print Assumptions C07_ident_add_accepted.
+
+(* non-vacuity / tie example: source /m.rs with identifiers foo_bar, quxly; zorgle added to the user dictionary, alpha to
+   the file dictionary, each followed by the command's hidden update; a plain document in between; with and without state *)
+Example C07_ident_example :
+  Forall (well_kinded is_src_ex) h_ident /\
+  snd (irun a_is_lower a_lower [] id_order (fs_empty, []) h_ident) =
+    [[false; true; true]; []; []; [false; false; true]; []; []; [false; false; false; false]; [true; false; true]] /\
+  snd (iref a_is_lower a_lower [] id_order fs_empty h_ident) =
+    [[false; true; true]; []; []; [false; false; true]; []; []; [false; false; false; false]; [true; false; true]].
+Proof. exact ident_example. Qed.
+Example C07_ident_kept_example :
+  accepted a_is_lower a_lower (children a_is_lower a_lower [] fs_empty u_src ++ [ident_dict a_is_lower a_lower [w_foo_bar; w_quxly]]) w_foo_bar = true.
+Proof.
+  apply C07_ident_kept; [now left| |intros e H; discriminate].
+  intros i' [H|[H|[]]] Hid; subst i'; [reflexivity|vm_compute in Hid; discriminate].
+Qed.
+(* history (6ece0c3): before the fix the second update of an unchanged source document dropped its identifiers *)
+Example C07_ident_old_refuted :
+  let nd := Some (ident_dict a_is_lower a_lower [w_foo_bar]) in
+  let st1 := update_doc_old a_is_lower a_lower [] id_order [] fs_empty u_src nd in
+  let st2 := update_doc_old a_is_lower a_lower [] id_order [(u_src, st1)] fs_empty u_src nd in
+  flags a_is_lower a_lower (ds_dict st1) [w_foo_bar] = [false] /\
+  flags a_is_lower a_lower (ds_dict st2) [w_foo_bar] = [true] /\
+  let n1 := update_doc a_is_lower a_lower [] id_order [] fs_empty u_src nd in
+  let n2 := update_doc a_is_lower a_lower [] id_order [(u_src, n1)] fs_empty u_src nd in
+  flags a_is_lower a_lower (ds_dict n2) [w_foo_bar] = [false].
+Proof. exact ident_old_refuted. Qed.
+
+(* ================================================================================================== *)
+(*  power loss: unsynced data and un-journalled renames (Model/C07Power.v)                              *)
+(* ================================================================================================== *)
+
+(* save_dict (temporary sibling, write, flush, sync_all, rename) from a file system at rest, POWER LOSS at any point (before
+   the first effect or after any effect): whatever prefix of the pending name-space operations (link of <name>.tmp, the
+   rename) the journal committed, and whatever the file system does to unsynced bytes (lossy: ANY function that returns
+   fully synced data intact), the dictionary's name shows its old text (or is absent as before) or the complete new text *)
+Theorem C07_power_crash_save : forall lossy : text -> text -> list content,
+  synced_safe lossy ->
+  forall (files : list (path * text)) (p : path) (ws : list word) (s : pfs) (c : option content),
+  In s (preach (pfs_of files, None, []) (save_effects p ws)) ->
+  pcrash_obs lossy s p c -> c = option_map Clean (fget p files) \/ c = Some (Clean (serialize ws)).
+Proof. exact power_crash_save. Qed.
+Check C07_power_crash_save : forall lossy : text -> text -> list content,
+  synced_safe lossy ->
+  forall (files : list (path * text)) (p : path) (ws : list word) (s : pfs) (c : option content),
+  In s (preach (pfs_of files, None, []) (save_effects p ws)) ->
+  pcrash_obs lossy s p c -> c = option_map Clean (fget p files) \/ c = Some (Clean (serialize ws)).
+Print Assumptions C07_power_crash_save.
+
+(* the sync_all is load-bearing: the same protocol WITHOUT it (save_effects_nosync), user dictionary {alpha, beta} at rest, add
+   gamma: after the rename a power loss can commit the rename while none of the new inode's bytes are durable — the
+   dictionary is an EMPTY file, neither the old nor the new text, and reloads to no word at all (alpha and beta lost) *)
+Theorem C07_power_nosync_refuted : let s := fst (fst (prun (pfs_of pw_files, None, []) (save_effects_nosync UserP pw_new))) in
+  In s (preach (pfs_of pw_files, None, []) (save_effects_nosync UserP pw_new)) /\
+  pcrash_obs lossy_prefix s UserP (Some (Clean [])) /\
+  Some (Clean []) <> option_map Clean (fget UserP pw_files) /\
+  Some (Clean ([] : text)) <> Some (Clean (serialize pw_new)) /\
+  x_load [] [] = [].
+Proof. exact power_nosync_refuted. Qed.
+Check C07_power_nosync_refuted : let s := fst (fst (prun (pfs_of pw_files, None, []) (save_effects_nosync UserP pw_new))) in
+  In s (preach (pfs_of pw_files, None, []) (save_effects_nosync UserP pw_new)) /\
+  pcrash_obs lossy_prefix s UserP (Some (Clean [])) /\
+  Some (Clean []) <> option_map Clean (fget UserP pw_files) /\
+  Some (Clean ([] : text)) <> Some (Clean (serialize pw_new)) /\
+  x_load [] [] = [].
+Print Assumptions C07_power_nosync_refuted.
+
+(* the system-call order the harness monitors with strace on real saves (open <name>.tmp, write+, ONE fsync, rename, nothing
+   after) is the order of save_effects, and the protocol without sync_all is rejected by the same decision function *)
+Theorem C07_power_order : forall (p : path) (ws : list word), x_order_ok (flat_map sysc_of (save_effects p ws)) = true.
+Proof. exact order_save. Qed.
+Check C07_power_order : forall (p : path) (ws : list word), x_order_ok (flat_map sysc_of (save_effects p ws)) = true.
+Print Assumptions C07_power_order.
+Example C07_power_order_nosync : forall (p : path) (ws : list word), x_order_ok (flat_map sysc_of (save_effects_nosync p ws)) = false.
+Proof. exact order_nosync. Qed.
+(* non-vacuity: the concrete loss function (durable bytes + any prefix of the unsynced ones) keeps synced data and may lose
+   all unsynced data; on {alpha, beta} + gamma the save goes through 12 states, completes with the new text visible and no
+   sibling, and after it BOTH outcomes are still possible under a power loss (the rename is not durable before the journal
+   commits: save_dict does not fsync the directory — a completed add may be reverted by a power loss, never torn) *)
+Example C07_power_example :
+  synced_safe lossy_prefix /\ may_lose_all lossy_prefix /\
+  let st := prun (pfs_of pw_files, None, []) (save_effects UserP pw_new) in
+  let s := fst (fst st) in
+  length (preach (pfs_of pw_files, None, []) (save_effects UserP pw_new)) = 12 /\
+  In s (preach (pfs_of pw_files, None, []) (save_effects UserP pw_new)) /\
+  option_map (fun i => i_vol (ino_at i s)) (ns_get UserP (p_vis s)) = Some (serialize pw_new) /\
+  ns_get (TmpP UserP) (p_vis s) = None /\
+  pcrash_obs lossy_prefix s UserP (Some (Clean (serialize pw_new))) /\
+  pcrash_obs lossy_prefix s UserP (Some (Clean (serialize [w_alpha; w_beta]))).
+Proof. exact (conj lossy_prefix_safe (conj lossy_prefix_loses power_example)). Qed.
